@@ -52,7 +52,25 @@ def make_files(work, rng, n, nops=(6, 12, 20), flavor="plain", big=0):
     return files
 
 
-def tlc_variants(work, files, mode, nvar, seed, maxsize=6000):
+def nat_bytes(n):
+    b = []
+    while n:
+        b.insert(0, n & 255)
+        n >>= 8
+    return b
+
+
+def time_edges():
+    """(secs, ticks) with secs * rate + ticks = 2^63 - 1 - d for the rates the generated files use and small d."""
+    edges = []
+    for tps in (1, 7, 10, 1000, 1000000, 1000000000):
+        for d in (0, 1, 1000, 1 << 20, 1 << 33):
+            inst = (1 << 63) - 1 - d
+            edges.append((inst // tps, inst % tps))
+    return edges
+
+
+def tlc_variants(work, files, mode, nvar, seed, maxsize=6000, edges=None):
     """TLC (GenVariants.tla) parses the real files and writes nvar rewritten / mutated serialisations of each."""
     files = [f for f in files if f.stat().st_size <= maxsize]
     # several TLC processes in parallel, each on a slice of the files
@@ -66,7 +84,9 @@ def tlc_variants(work, files, mode, nvar, seed, maxsize=6000):
         inp.write_text("\n".join(json.dumps({"bytes": list(f.read_bytes())}) for f in slices[k]) + "\n")
         cfg = vlib.make_cfg(work / f"GenVariants.{mode}.{k}.cfg",
                             constants={"NVar": nvar, "Mode": f'"{mode}"', "Seed": seed + k})
-        res = vlib.run_tlc("GenVariants", cfg, workers=1, timeout=1500, env={"IN": str(inp), "OUT": str(outp)}, xmx="3g")
+        ef = work / f"var_edges.{mode}.{k}.ndjson"
+        ef.write_text("".join(json.dumps({"s": nat_bytes(a), "t": nat_bytes(b)}) + "\n" for a, b in (edges or [])))
+        res = vlib.run_tlc("GenVariants", cfg, workers=1, timeout=1500, env={"IN": str(inp), "OUT": str(outp), "EDGES": str(ef)}, xmx="3g")
         if not outp.exists() or "No error" not in res["out"]:
             raise vlib.Infra("GenVariants failed: " + res["out"][-1500:])
         out = []
